@@ -184,6 +184,9 @@ class SchemaRaises(SchemaBase):
         if expected_type is None:
             # no expectation, no failure possible
             return None
+        elif (not isinstance(expected_type, dict)) and _is_null(observed_value):
+            # nulls are not considered to have a type
+            return None
         elif isinstance(expected_type, type):
             # single type
             if not isinstance(observed_value, expected_type):
